@@ -190,7 +190,13 @@ impl From<core::time::Duration> for Duration {
 
 impl From<Duration> for core::time::Duration {
     fn from(x: Duration) -> Self {
-        core::time::Duration::new(x.sec as u64, x.nanosec)
+        if x.sec < 0 {
+            // A negative interval (e.g. the time until an event that is already overdue) is no
+            // wait at all, not a wait of 2^64 seconds
+            core::time::Duration::ZERO
+        } else {
+            core::time::Duration::new(x.sec as u64, x.nanosec)
+        }
     }
 }
 
